@@ -59,6 +59,8 @@ pub struct Script {
     pub writes: VecDeque<WriteStep>,
     pub trace: Vec<Event>,
     pub written: Vec<u8>,
+    /// every write call: (bytes accepted so far, bytes offered by this call)
+    pub offers: Vec<(usize, usize)>,
     pub min_offered: usize,
     pub max_offered: usize,
     /// a waker parked by a Stall step (never woken by the transport)
@@ -156,6 +158,7 @@ impl Script {
     }
 
     fn do_write(&mut self, buf: &[u8], blocking: bool) -> Result<Poll<usize>, io::ErrorKind> {
+        self.offers.push((self.written.len(), buf.len()));
         loop {
             match self.writes.pop_front() {
                 None => {
@@ -261,6 +264,35 @@ impl AsyncWrite for Transport {
     fn poll_shutdown(self: Pin<&mut Self>, _cx: &mut Context<'_>) -> Poll<io::Result<()>> {
         Poll::Ready(Ok(()))
     }
+}
+
+/// Message-oriented adaptors (UDP: one datagram per write call, WebSocket: one binary message per write call) turn every write
+/// call into one unit on the wire. So no write call may offer bytes of two frames: walk the outgoing stream by announced sizes
+/// and report the first call whose buffer runs past the end of the frame it starts in.
+pub fn write_call_spanning_frames(written: &[u8], offers: &[(usize, usize)], mode: &Mode) -> Option<String> {
+    let mut ends = vec![];
+    let mut pos = 0usize;
+    while pos < written.len() {
+        let a = match mode {
+            Mode::Compressed => written[pos] as usize * 4,
+            Mode::Uncompressed => written[pos] as usize,
+        };
+        if a < 4 {
+            return None; // misframed output is reported by the byte-stream oracles
+        }
+        pos += a;
+        ends.push(pos);
+    }
+    for (p, len) in offers {
+        if *len == 0 || *p >= written.len() {
+            continue; // nothing of that call is known to have left
+        }
+        let end = *ends.iter().find(|e| **e > *p)?;
+        if p + len > end {
+            return Some(format!("a write call at outgoing byte {p} offered {len} bytes, but the frame it starts in ends at byte {end}: the call carries bytes of two frames"));
+        }
+    }
+    None
 }
 
 // ---------------------------------------------------------------------------------------
